@@ -97,6 +97,10 @@ def wall_cap(tier):
 
 
 # -- generation ---------------------------------------------------------------------------------
+# selectors that are well-defined on loosely typed (plain JSON, CSV) sources too
+LOOSE_OK = (None, "r.s == 'x'", "r.q == 'q' or r.s == 'z'", "r.f", "r.extra == 'e1' or r.n == 4")
+
+
 def gen_rec(rng, i, only=None):
     k = only or rng.choice(["A", "A", "B", "C", "A2", "D", "T", "P", "Q"])
     t = lambda h: {"$dt": (G + _dt.timedelta(hours=h)).replace(tzinfo=None).isoformat(), "off": 0}  # noqa: E731
@@ -236,7 +240,7 @@ def generate(rng, tier, index):
         kind = rng.choice(["good", "good", "good", "json", "stdin", "plainjson", "csv", "avro"] + FAULT_KINDS)
         if kind == "avro" and only:
             kind = "good"
-        if kind in ("plainjson", "csv") and (only or SELECTORS[opts["sel"]][0] not in (None, "r.s == 'x'", "r.q == 'q' or r.s == 'z'", "r.f", "r.extra == 'e1' or r.n == 4")):
+        if kind in ("plainjson", "csv") and (only or SELECTORS[opts["sel"]][0] not in LOOSE_OK):
             kind = "json"  # ordering comparisons on loosely typed JSON values are selector semantics, not slicing
         if kind == "stdin":
             if have_stdin:
@@ -1048,7 +1052,10 @@ def mutate(plan, rng):
     elif r < 0.6:
         o = gen_options(rng, p["mode"])
         k = rng.choice(sorted(o))
-        if not (k == "sel" and o[k] in NEEDS_TAGS):
+        loose = any(s.get("kind") in ("plainjson", "csv") for s in p["sources"])
+        if k == "sel" and (o[k] in NEEDS_TAGS or (loose and SELECTORS[o[k]][0] not in LOOSE_OK)):
+            pass  # the generator never pairs these selectors with such sources (C07/C08 semantics, not slicing)
+        else:
             p["opts"][k] = o[k]
     elif r < 0.8:
         p["mode"] = rng.choice(MODES)
